@@ -64,7 +64,9 @@ def r11_1(cx):
     preds = {
         'TooManyElements': (lambda r: r[0] == 'Gt' and lens(r[1]) and _is_i32max(r[2]), 'elements.len() > i32::MAX'),
         'ValueTooLarge': (lambda r: r[0] == 'Gt' and enc_len(r[1]) and _is_i32max(r[2]), 'encoded_len > i32::MAX'),
-        'TotalTooLarge': (lambda r: r[0] == 'Gt' and _is_i32max(r[2]) and any(c.op.endswith('saturating_add') for c in r[1].calls()), 'total > i32::MAX'),
+        # (the total compared is the one that includes the header terms, not the sum of the values alone)
+        'TotalTooLarge': (lambda r: r[0] == 'Gt' and _is_i32max(r[2]) and any(c.op.endswith('saturating_add') for c in r[1].calls())
+                          and any(c.op.endswith('saturating_mul') for c in r[1].calls()), 'header + values > i32::MAX'),
     }
     def narrowed(e):
         # the quantity tested against the limit went through a type that cannot hold every usize: `total as u32 > MAX`
@@ -89,7 +91,8 @@ def r11_1(cx):
         rels = [as_relation((e, val)) for e, val, ed in fn.facts_at(oks[0].bb)]
         rels = [r for r in rels if r]
         ok = any(r[0] == 'Le' and lens(r[1]) and _is_i32max(r[2]) for r in rels) and \
-            any(r[0] == 'Le' and _is_i32max(r[2]) and any(c.op.endswith('saturating_add') for c in r[1].calls()) for r in rels)
+            any(r[0] == 'Le' and _is_i32max(r[2]) and any(c.op.endswith('saturating_add') for c in r[1].calls())
+                and any(c.op.endswith('saturating_mul') for c in r[1].calls()) for r in rels)
     cx.check(ok, 'ok-within-limits', fn, None, 'Ok(total) only where len <= i32::MAX and total <= i32::MAX', fail_detail='Ok can be returned beyond a limit')
     # the per-value check dominates the accumulation of that value
     acc = [cs for cs in fn.calls('saturating_add') if any(enc_len(a) for a in cs.args())]
@@ -394,9 +397,9 @@ def r11_5(cx):
 
 
 def r11_6(cx):
-    """what the encoder writes into: a sink whose allocator serves every value size (R17.7) and whose size accounting survives reuse (R3.2)"""
+    """what the encoder writes into: a sink whose allocator serves every value size (R17.7) and whose size accounting survives reuse (R3.2); what reads it back: indexed access and tag lookup of the view (R12.1, R12.6)"""
     from . import c17, c03, c12
-    compose(cx, [('R17.7', c17.r17_7), ('R3.2', c03.r3_2), ('R12.1', c12.r12_1)])
+    compose(cx, [('R17.7', c17.r17_7), ('R3.2', c03.r3_2), ('R12.1', c12.r12_1), ('R12.6', c12.r12_6)])
 
 
 RULES = [('R11.1', r11_1), ('R11.2', r11_2), ('R11.3', r11_3), ('R11.4', r11_4), ('R11.5', r11_5), ('R11.6', r11_6)]
